@@ -197,6 +197,31 @@ Fixpoint propagate (fuel : nat) (s : state) (work : list node) : res state :=
       end
   end.
 
+(** the same, continuing through projection callers (it still stops at firewalls): used when an
+    updated firewall / projection is not reached as a transitive firewall callee (its backward
+    projections may never run) and when a projection reaches other firewalls with the same value *)
+Fixpoint mark_callers_t (s : state) (x : node) (cs : list node) (work : list node) : state * list node :=
+  match cs with
+  | [] => (s, work)
+  | c :: r =>
+      let s1 := set_stat (set_dirty s (eadd (c, x) (s_dirty s))) (s_stat s + 1)%N in
+      mark_callers_t s1 x r (if kind_eqb (nkind c) KFirewall then work else work ++ [c])
+  end.
+Fixpoint propagate_t (fuel : nat) (s : state) (work : list node) : res state :=
+  match fuel with
+  | O => OutOfFuel
+  | S f =>
+      match work with
+      | [] => Ok s
+      | x :: r =>
+          if nmem x (s_visited s) then propagate_t f s r
+          else
+            let s1 := set_visited s (x :: s_visited s) in
+            let '(s2, work') := mark_callers_t s1 x (callers_of s1 x) r in
+            propagate_t f s2 work'
+      end
+  end.
+
 (** * set_computed / clean_query / set_computed_input (database.rs) *)
 Definition unwire (s : state) (n : node) (old : list dep) (clean_dirty : bool) : state :=
   fold_left (fun s c =>
@@ -415,7 +440,14 @@ with execute (fuel : nat) (stk : list node) (c : caller) (n : node) (recompute :
     let changed := match old with
                    | Some i => recompute && is_fw_or_proj (nkind n) && negb (i_value i =? v)
                    | None => false end in
-    let* s2 := if changed then propagate (S f * 4) s1 [n] else Ok s1 in
+    (* a projection that reaches other firewalls with the same value tells the queries above it *)
+    let tfc_changed := match old with
+                       | Some i => recompute && kind_eqb (nkind n) KProjection && negb changed
+                                   && negb (nset_eqb (i_tfc i) (fr_tfc fr2))
+                       | None => false end in
+    let follow := match c with CRepairFirewall | CBPP => true | _ => false end in
+    let* s2 := if changed then (if follow then propagate (S f * 4) s1 [n] else propagate_t (S f * 4) s1 [n])
+               else if tfc_changed then propagate_t (S f * 4) s1 [n] else Ok s1 in
     Ok (marks, set_computed s2 n v fr2 changed recompute)
   end
 
